@@ -567,7 +567,7 @@ Proof.
     destruct it as [c|e seg e' code out]; cbn [item_ok] in Hit.
     + cbn [item_calls run_from]. rewrite (step_U u el c Hit).
       destruct (IH (snd (upiece cfg u c)) el Hits) as [el' [errs H]].
-      exists el', (call_err c ++ [] ++ errs). rewrite H.
+      exists el', ((call_err c ++ []) ++ errs). rewrite H.
       cbn [items_out items_run item_out concat]. rewrite app_nil_r. reflexivity.
     + apply andb_true_iff in Hit. destruct Hit as [Hee Hseg].
       apply andb_true_iff in Hee. destruct Hee as [He He'].
@@ -578,4 +578,428 @@ Proof.
       cbn [items_out items_run item_out concat]. reflexivity.
 Qed.
 
+(* ------------------------------------------------------------------ facts about the spec functions *)
+Lemma upieces_app a : forall u b,
+  upieces cfg u (a ++ b) = upieces cfg u a ++ upieces cfg (urun cfg u a) b.
+Proof.
+  clear Hnq Hfmt Hdumb.
+  induction a as [|c a IH]; intros u b; [reflexivity|].
+  cbn [app upieces urun]. rewrite IH. reflexivity.
+Qed.
+
+Lemma upiece_cn u c :
+  plain c = true -> u_cn (snd (upiece cfg u c)) = cn_step (u_cn u) c /\
+                    u_idx (snd (upiece cfg u c)) = S (u_idx u).
+Proof.
+  clear Hnq Hfmt Hdumb.
+  intros Hp. destruct c; cbn [plain] in Hp; try discriminate; unfold upiece;
+    try (split; reflexivity).
+  destruct (body cfg (u_owed u) e code output) as [bb ow]. split; reflexivity.
+Qed.
+
+Lemma urun_cn cs : forall u,
+  forallb plain cs = true ->
+  u_cn (urun cfg u cs) = fold_left cn_step cs (u_cn u) /\
+  u_idx (urun cfg u cs) = (u_idx u + length cs)%nat.
+Proof.
+  clear Hnq Hfmt Hdumb.
+  induction cs as [|c cs IH]; intros u Hp.
+  - cbn [urun fold_left length]. split; [reflexivity|lia].
+  - cbn [forallb] in Hp. apply andb_true_iff in Hp. destruct Hp as [Hc Hcs].
+    cbn [urun fold_left length]. destruct (IH (snd (upiece cfg u c)) Hcs) as [H1 H2].
+    destruct (upiece_cn u c Hc) as [H3 H4]. rewrite H1, H2, H3, H4. split; [reflexivity|lia].
+Qed.
+
+(* the tidy description: every finished command contributes
+     status line . [FAILED line . command line] . output
+   and nothing else is printed except Info lines *)
+Definition tidy_block (idx : nat) (cn : counters) (e : edge) (code : Z) (out : bytes) : bytes :=
+  sline_direct cfg idx (cn_print cn) e ++
+  (if Z.eqb code 0 then [] else failed_block cfg e code) ++
+  shown_output cfg out.
+Definition tidy_piece (idx : nat) (cn : counters) (c : call) : bytes :=
+  match c with
+  | Finished e code out => tidy_block idx cn e code out
+  | Info m => l_ninja ++ cstr m ++ [b_lf]
+  | _ => []
+  end.
+Fixpoint tidy (cn : counters) (idx : nat) (cs : list call) : list bytes :=
+  match cs with
+  | [] => []
+  | c :: r => tidy_piece idx cn c :: tidy (cn_step cn c) (S idx) r
+  end.
+(* the output of the command (as shown) is empty or ends in a newline *)
+Definition terminated (c : call) : bool :=
+  match c with
+  | Finished _ _ out => ends_blank (shown_output cfg out)
+  | _ => true
+  end.
+
+Lemma shown_output_nil : shown_output cfg [] = [].
+Proof. clear Hnq Hfmt Hdumb. unfold shown_output. cbn [has_esc existsb negb]. rewrite orb_true_r. reflexivity. Qed.
+
+Lemma body_tidy e code out :
+  ends_blank (shown_output cfg out) = true ->
+  body cfg false e code out =
+  ((if Z.eqb code 0 then [] else failed_block cfg e code) ++ shown_output cfg out, false).
+Proof.
+  clear Hnq Hfmt Hdumb.
+  intros Ht. unfold body. destruct (Z.eqb code 0); destruct (is_empty out) eqn:Ho;
+    try (apply is_empty_true_nil in Ho; subst out; rewrite shown_output_nil);
+    rewrite ?Ht; cbn [negb app]; rewrite ?app_nil_r; reflexivity.
+Qed.
+
+Lemma upieces_tidy cs : forall u,
+  u_owed u = false -> forallb plain cs = true -> forallb terminated cs = true ->
+  upieces cfg u cs = tidy (u_cn u) (u_idx u) cs.
+Proof.
+  clear Hnq Hfmt Hdumb.
+  induction cs as [|c cs IH]; intros u Hu Hp Ht; [reflexivity|].
+  cbn [forallb] in Hp, Ht. apply andb_true_iff in Hp. apply andb_true_iff in Ht.
+  destruct Hp as [Hc Hcs]. destruct Ht as [Htc Htcs].
+  destruct u as [cn ow i]. cbn [u_owed] in Hu. subst ow.
+  cbn [upieces tidy u_cn u_idx].
+  destruct c as [e|e|e|e code out| | |b| |m|m|m]; cbn [plain terminated] in Hc, Htc; try discriminate;
+    unfold upiece; cbn [u_cn u_owed u_idx fst snd tidy_piece];
+    try (rewrite IH by (cbn [u_owed]; auto); reflexivity).
+  rewrite (body_tidy e code out Htc). cbn [fst snd].
+  rewrite IH by (cbn [u_owed]; auto). reflexivity.
+Qed.
+
 End Dumb.
+
+(* ------------------------------------------------------------------ cutting a call sequence *)
+(* the calls up to the first finishing console command: (segment, that edge, code, output, rest) *)
+Fixpoint take_seg (cs : list call) : option (list call * edge * Z * bytes * list call) :=
+  match cs with
+  | [] => None
+  | c :: r =>
+    match c with
+    | Finished e code out =>
+      if e_console e then Some ([], e, code, out, r)
+      else match take_seg r with
+           | Some (seg, e', c', o', r') => Some (c :: seg, e', c', o', r')
+           | None => None
+           end
+    | _ =>
+      if segcall c then
+        match take_seg r with
+        | Some (seg, e', c', o', r') => Some (c :: seg, e', c', o', r')
+        | None => None
+        end
+      else None
+    end
+  end.
+
+(* [fuel] bounds the number of items; [length cs] is always enough.  None = the sequence is not
+   of the form plain* (window plain* )*  -- or the fuel ran out *)
+Fixpoint parse (fuel : nat) (cs : list call) : option (list item) :=
+  match cs with
+  | [] => Some []
+  | c :: r =>
+    match fuel with
+    | O => None
+    | S f =>
+      match c with
+      | Started e =>
+        if e_console e then
+          match take_seg r with
+          | Some (seg, e', code, out, r') => option_map (cons (IWindow e seg e' code out)) (parse f r')
+          | None => None
+          end
+        else option_map (cons (IPlain c)) (parse f r)
+      | _ => if plain c then option_map (cons (IPlain c)) (parse f r) else None
+      end
+    end
+  end.
+
+Lemma take_seg_ok cs : forall seg e' code out r,
+  take_seg cs = Some (seg, e', code, out, r) ->
+  cs = seg ++ Finished e' code out :: r /\ forallb segcall seg = true /\ e_console e' = true.
+Proof.
+  induction cs as [|c cs IH]; intros seg e' code out r H; [discriminate|].
+  cbn [take_seg] in H.
+  assert (Hgen : segcall c = true ->
+                 match take_seg cs with
+                 | Some (seg0, e0, c0, o0, r0) => Some (c :: seg0, e0, c0, o0, r0)
+                 | None => None
+                 end = Some (seg, e', code, out, r) ->
+                 c :: cs = seg ++ Finished e' code out :: r /\ forallb segcall seg = true /\ e_console e' = true).
+  { intros Hc H'. destruct (take_seg cs) as [[[[[seg0 e0] c0] o0] r0]|] eqn:Ht; [|discriminate].
+    injection H' as <- <- <- <- <-.
+    destruct (IH _ _ _ _ _ eq_refl) as [H1 [H2 H3]].
+    split; [cbn [app]; rewrite <- H1; reflexivity|].
+    split; [cbn [forallb]; rewrite Hc, H2; reflexivity|exact H3]. }
+  destruct c as [e|e|e|e c1 o1| | |b| |m|m|m];
+    try (destruct (segcall _) eqn:Hc in H; [apply Hgen; [exact Hc|exact H]|discriminate]).
+  destruct (e_console e) eqn:He.
+  - injection H as <- <- <- <- <-. split; [reflexivity|]. split; [reflexivity|exact He].
+  - apply Hgen; [cbn [segcall]; rewrite He; reflexivity|exact H].
+Qed.
+
+Lemma parse_ok fuel : forall cs its,
+  parse fuel cs = Some its ->
+  flat_map item_calls its = cs /\ forallb item_ok its = true.
+Proof.
+  induction fuel as [|f IH]; intros cs its H.
+  - destruct cs; [injection H as <-; split; reflexivity|discriminate].
+  - destruct cs as [|c r]; [injection H as <-; split; reflexivity|].
+    cbn [parse] in H.
+    assert (Hplain : plain c = true -> option_map (cons (IPlain c)) (parse f r) = Some its ->
+                     flat_map item_calls its = c :: r /\ forallb item_ok its = true).
+    { intros Hc H'. destruct (parse f r) as [its0|] eqn:Hp; [|discriminate].
+      injection H' as <-. destruct (IH _ _ Hp) as [H1 H2].
+      cbn [flat_map item_calls forallb item_ok app]. rewrite H1, Hc, H2. split; reflexivity. }
+    destruct c as [e|e|e|e c1 o1| | |b| |m|m|m];
+      try (destruct (plain _) eqn:Hc in H; [apply Hplain; [exact Hc|exact H]|discriminate]).
+    destruct (e_console e) eqn:He.
+    + destruct (take_seg r) as [[[[[seg e'] code] out] r']|] eqn:Ht; [|discriminate].
+      destruct (parse f r') as [its0|] eqn:Hp; [|discriminate].
+      injection H as <-. destruct (IH _ _ Hp) as [H1 H2].
+      destruct (take_seg_ok _ _ _ _ _ _ Ht) as [H3 [H4 H5]].
+      cbn [flat_map item_calls forallb item_ok]. rewrite H1, He, H5, H4, H2.
+      split; [|reflexivity]. cbn [app]. rewrite <- app_assoc. cbn [app]. rewrite <- H3. reflexivity.
+    + apply Hplain; [cbn [plain]; rewrite He; reflexivity|exact H].
+Qed.
+
+(* ------------------------------------------------------------------ formats *)
+Lemma format_ok_default cfg :
+  c_eval cfg = None -> c_format cfg = default_format -> format_ok cfg.
+Proof.
+  intros He Hf idx cn e. unfold status_text. rewrite He, Hf. eexists. reflexivity.
+Qed.
+
+(* with the default format the line is "[finished/total] description" *)
+Lemma sline_default cfg idx cn e :
+  c_eval cfg = None -> c_format cfg = default_format ->
+  sline cfg idx cn e =
+  [91] ++ dec_Z (n_finished cn) ++ [47] ++ dec_Z (n_total cn) ++ [93; 32] ++ description_of cfg e.
+Proof.
+  intros He Hf. unfold sline, status_text. rewrite He, Hf.
+  unfold format_progress.
+  change (cstr default_format) with default_format.
+  unfold default_format. cbn [format_go N.eqb Pos.eqb b_pct placeholder orb].
+  repeat (cbn [app]; rewrite <- app_assoc). cbn [app]. reflexivity.
+Qed.
+
+(* ------------------------------------------------------------------ the theorems *)
+Lemma init_is_ustate : init_state = ustate u0 true.
+Proof. reflexivity. Qed.
+
+(* Dumb terminal, no console-pool commands: what is printed is the concatenation of the pieces of
+   [upiece], call by call.  No restriction on the order of the calls or on the outputs. *)
+Theorem blocks_general cfg cs :
+  smart cfg = false -> c_verb cfg <> VQuiet -> format_ok cfg ->
+  forallb plain cs = true ->
+  render cfg cs = concat (upieces cfg u0 cs).
+Proof.
+  intros Hd Hq Hf Hp. unfold render, run. rewrite init_is_ustate, (run_U cfg Hd Hq Hf cs u0 true Hp).
+  reflexivity.
+Qed.
+
+(* ... and when every output ends in a newline (or is empty) these are the tidy blocks *)
+Theorem blocks_tidy cfg cs :
+  smart cfg = false -> c_verb cfg <> VQuiet -> format_ok cfg ->
+  forallb plain cs = true -> forallb (terminated cfg) cs = true ->
+  render cfg cs = concat (tidy cfg cn0 O cs).
+Proof.
+  intros Hd Hq Hf Hp Ht. rewrite (blocks_general cfg cs Hd Hq Hf Hp).
+  rewrite (upieces_tidy cfg cs u0 eq_refl Hp Ht). reflexivity.
+Qed.
+
+(* the output of one command sits in one piece, right after its status line (and FAILED block);
+   what precedes is the rendering of the earlier calls, what follows does not contain it *)
+Theorem output_once cfg pre e code out post :
+  smart cfg = false -> c_verb cfg <> VQuiet -> format_ok cfg ->
+  forallb plain (pre ++ Finished e code out :: post) = true ->
+  let u := urun cfg u0 pre in
+  render cfg (pre ++ Finished e code out :: post) =
+  render cfg pre ++
+  (sline_direct cfg (length pre) (cn_print (counters_of pre)) e ++
+   fst (body cfg (u_owed u) e code out)) ++
+  concat (upieces cfg (snd (upiece cfg u (Finished e code out))) post).
+Proof.
+  intros Hd Hq Hf Hp u.
+  assert (Hpre : forallb plain pre = true).
+  { rewrite forallb_app in Hp. apply andb_true_iff in Hp. exact (proj1 Hp). }
+  rewrite (blocks_general cfg _ Hd Hq Hf Hp), (blocks_general cfg _ Hd Hq Hf Hpre).
+  rewrite upieces_app, concat_app. fold u. cbn [upieces concat].
+  destruct (urun_cn cfg pre u0 Hpre) as [H1 H2]. fold u in H1, H2. cbn [u0 u_cn u_idx] in H1, H2.
+  unfold upiece at 1. rewrite H1, H2. cbn [plus].
+  destruct (body cfg (u_owed u) e code out) as [bb ow]. cbn [fst snd]. reflexivity.
+Qed.
+
+(* FAILED header: for a failed command the block is  [owed newline] FAILED: [code=N] outputs \n command \n output *)
+Theorem failed_header cfg owed e code out :
+  code <> 0%Z -> c_color cfg = false ->
+  fst (body cfg owed e code out) =
+  (if owed then [b_lf] else []) ++
+  (l_failed ++ dec_Z code ++ l_close ++ outputs_text e ++ [b_lf]) ++
+  (e_cmd e ++ [b_lf]) ++
+  shown_output cfg out.
+Proof.
+  intros Hc Hcol. unfold body, failed_block, failed_line. rewrite Hcol.
+  destruct (Z.eqb_spec code 0) as [->|_]; [congruence|].
+  destruct (is_empty out) eqn:Ho; cbn [fst].
+  - apply is_empty_true_nil in Ho. subst out. rewrite shown_output_nil, app_nil_r.
+    repeat rewrite <- app_assoc. reflexivity.
+  - repeat rewrite <- app_assoc. reflexivity.
+Qed.
+
+(* Console windows: a call sequence that cuts into plain calls and windows
+   (Started console-edge ; calls of other edges ; Finished console-edge) prints item by item. *)
+Theorem console_items cfg its :
+  smart cfg = false -> c_verb cfg <> VQuiet -> format_ok cfg ->
+  forallb item_ok its = true ->
+  render cfg (flat_map item_calls its) = concat (items_out cfg u0 its).
+Proof.
+  intros Hd Hq Hf Hok. unfold render, run. rewrite init_is_ustate.
+  destruct (run_items cfg Hd Hq Hf its u0 true Hok) as [el' [errs H]]. rewrite H. reflexivity.
+Qed.
+
+Theorem console_parsed cfg fuel cs its :
+  smart cfg = false -> c_verb cfg <> VQuiet -> format_ok cfg ->
+  parse fuel cs = Some its ->
+  render cfg cs = concat (items_out cfg u0 its).
+Proof.
+  intros Hd Hq Hf Hp. destruct (parse_ok fuel cs its Hp) as [H1 H2].
+  rewrite <- H1. apply console_items; assumption.
+Qed.
+
+(* ------------------------------------------------------------------ what happens under the lock, spelled out *)
+Definition info_out (c : call) : bytes :=
+  match c with Info m => l_ninja ++ cstr m ++ [b_lf] | _ => [] end.
+
+(* (1) while the console is locked nothing reaches stdout except Info() lines (a plain fprintf) *)
+Lemma locked_direct cfg seg : forall u line,
+  lr_direct (lrun cfg u line seg) = concat (map info_out seg).
+Proof.
+  induction seg as [|c seg IH]; intros u line; [reflexivity|].
+  cbn [lrun lr_direct map concat]. rewrite IH.
+  destruct c; unfold lpiece; cbn [fst snd info_out]; try reflexivity.
+  destruct (prints code output); reflexivity.
+Qed.
+
+(* (2) the buffer is the concatenation of the per-call contributions ... *)
+Fixpoint lbufs (cfg : config) (u : ust) (line : bytes) (seg : list call) : list bytes :=
+  match seg with
+  | [] => []
+  | c :: r => fst (fst (fst (lpiece cfg u line c))) ::
+              lbufs cfg (snd (fst (lpiece cfg u line c))) (snd (lpiece cfg u line c)) r
+  end.
+Lemma locked_buffer cfg seg : forall u line,
+  lr_buf (lrun cfg u line seg) = concat (lbufs cfg u line seg).
+Proof.
+  induction seg as [|c seg IH]; intros u line; [reflexivity|].
+  cbn [lrun lr_buf lbufs concat]. rewrite IH. reflexivity.
+Qed.
+
+(* ... a command that prints something (it failed, or it has output) contributes its WHOLE block:
+   status line (as a std::string: not cut at a NUL; dropped when empty), FAILED block, output ... *)
+Lemma locked_block cfg u line e code out :
+  shows_status cfg = true -> prints code out = true ->
+  fst (fst (fst (lpiece cfg u line (Finished e code out)))) =
+  (let l := sline cfg (u_idx u) (cn_print (u_cn u)) e in if is_empty l then [] else l ++ [b_lf]) ++
+  fst (body cfg (u_owed u) e code out)
+  /\ snd (lpiece cfg u line (Finished e code out)) = [].
+Proof.
+  intros Hs Hp. unfold lpiece. rewrite Hs, Hp. cbn [fst snd]. split; reflexivity.
+Qed.
+
+(* ... every other call contributes nothing to the buffer; a SILENT successful command only replaces
+   the pending progress line (line_buffer_) by its own: this is the coalescing *)
+Lemma locked_silent cfg u line e code out :
+  shows_status cfg = true -> prints code out = false ->
+  fst (fst (fst (lpiece cfg u line (Finished e code out)))) = [] /\
+  snd (lpiece cfg u line (Finished e code out)) = sline cfg (u_idx u) (cn_print (u_cn u)) e.
+Proof.
+  intros Hs Hp. unfold lpiece. rewrite Hs, Hp. cbn [fst snd]. split; reflexivity.
+Qed.
+
+Lemma locked_other cfg u line c :
+  match c with Finished _ _ _ => False | _ => True end ->
+  fst (fst (fst (lpiece cfg u line c))) = [] /\ snd (lpiece cfg u line c) = line.
+Proof.
+  intros Hc. destruct c; try contradiction; unfold lpiece; cbn [fst snd]; split; reflexivity.
+Qed.
+
+(* ------------------------------------------------------------------ StripAnsiEscapeCodes leaves no ESC *)
+Lemma strip_go_no_esc n : forall incsi s, (length s <= n)%nat -> has_esc (strip_go incsi s) = false.
+Proof.
+  induction n as [|n IH]; intros incsi s Hn.
+  - destruct s; [destruct incsi; reflexivity|cbn [length] in Hn; lia].
+  - destruct s as [|c r]; [destruct incsi; reflexivity|].
+    cbn [length] in Hn. assert (Hr : (length r <= n)%nat) by lia.
+    cbn [strip_go]. destruct incsi.
+    + destruct (islatinalpha c); apply IH; exact Hr.
+    + destruct (N.eqb c b_esc) eqn:Hc; cbn [negb].
+      * destruct r as [|d r']; [reflexivity|].
+        destruct (N.eqb d b_lbr); apply IH; [cbn [length] in Hr; lia|exact Hr].
+      * unfold has_esc. cbn [existsb]. rewrite N.eqb_sym, Hc. cbn [orb]. apply IH. exact Hr.
+Qed.
+
+Lemma strip_ansi_no_esc s : has_esc (strip_ansi s) = false.
+Proof. apply (strip_go_no_esc (length s)). lia. Qed.
+
+(* what is shown of an output on a terminal without colour support never contains an ESC *)
+Lemma shown_output_no_esc cfg out : c_color cfg = false -> has_esc (shown_output cfg out) = false.
+Proof.
+  intros Hc. unfold shown_output. rewrite Hc. cbn [orb].
+  destruct (has_esc out) eqn:He; cbn [negb]; [apply strip_ansi_no_esc|exact He].
+Qed.
+
+(* ------------------------------------------------------------------ the tidy statement is false in general *)
+(* witness: two commands, the first one's output is "abc" without a newline *)
+Definition wit_cfg : config := mkConfig false VNormal false O default_format None (fun _ _ => []).
+Definition wit_a : edge := mkEdge [97] [99;49] false [[97]].          (* description "a", command "c1" *)
+Definition wit_b : edge := mkEdge [98] [99;50] false [[98]].          (* description "b", command "c2" *)
+Definition wit_calls : list call :=
+  [Added wit_a; Added wit_b; BuildStarted; Started wit_a; Finished wit_a 0 [97;98;99];
+   Started wit_b; Finished wit_b 0 [120;10]; BuildFinished].
+
+Lemma wit_cfg_ok : smart wit_cfg = false /\ c_verb wit_cfg <> VQuiet /\ format_ok wit_cfg.
+Proof.
+  split; [reflexivity|]. split; [discriminate|]. apply format_ok_default; reflexivity.
+Qed.
+
+(* "[1/2] a\nabc[2/2] b\n\nx\n": the second status line is glued onto "abc", and the newline that
+   "abc" lacked comes out between the second command's status line and its output *)
+Lemma wit_render :
+  render wit_cfg wit_calls =
+  [91;49;47;50;93;32;97;10] ++ [97;98;99] ++ [91;50;47;50;93;32;98;10] ++ [10] ++ [120;10].
+Proof. vm_compute. reflexivity. Qed.
+
+Theorem tidy_refuted :
+  exists cfg cs,
+    smart cfg = false /\ c_verb cfg <> VQuiet /\ format_ok cfg /\ forallb plain cs = true /\
+    render cfg cs <> concat (tidy cfg cn0 O cs).
+Proof.
+  exists wit_cfg, wit_calls. destruct wit_cfg_ok as [H1 [H2 H3]].
+  split; [exact H1|]. split; [exact H2|]. split; [exact H3|]. split; [reflexivity|].
+  intros H. vm_compute in H. discriminate H.
+Qed.
+
+(* ------------------------------------------------------------------ the numbers in the status line *)
+(* default format, NORMAL/VERBOSE: the line printed when a command finishes is
+   "[f/t] description" with f = finished commands including this one, t = the plan's total, both
+   as counted over the calls made before (EdgeAdded/RemovedFromPlan, BuildStarted, Finished) *)
+Theorem counters_in_lines cfg pre e code out post :
+  smart cfg = false -> shows_status cfg = true ->
+  c_eval cfg = None -> c_format cfg = default_format ->
+  forallb plain (pre ++ Finished e code out :: post) = true ->
+  let cn := counters_of pre in
+  let u := urun cfg u0 pre in
+  render cfg (pre ++ Finished e code out :: post) =
+  render cfg pre ++
+  (cstr ([91] ++ dec_Z (n_finished cn + 1) ++ [47] ++ dec_Z (n_total cn) ++ [93; 32] ++
+         description_of cfg e) ++ [b_lf] ++
+   fst (body cfg (u_owed u) e code out)) ++
+  concat (upieces cfg (snd (upiece cfg u (Finished e code out))) post).
+Proof.
+  intros Hd Hs He Hf Hp cn u.
+  assert (Hq : c_verb cfg <> VQuiet).
+  { unfold shows_status in Hs. destruct (c_verb cfg); congruence. }
+  rewrite (output_once cfg pre e code out post Hd Hq (format_ok_default cfg He Hf) Hp).
+  fold u. fold cn. unfold sline_direct. rewrite Hs, (sline_default cfg _ _ e He Hf).
+  cbn [cn_print n_finished n_total]. rewrite <- !app_assoc. reflexivity.
+Qed.
